@@ -49,3 +49,10 @@ Theorem corr_is_symmetric :
     corr_signed_square f g lo hi 0 lc = Ok v -> corr_signed_square g f lo hi 0 lc = Ok v' -> v = v'.
 Proof. exact corr_symmetric. Qed.
 Print Assumptions corr_is_symmetric.
+
+Theorem corr_of_opposite_sides_is_rejected :
+  forall (f g : stairsQ) lo hi lc,
+    has_steps f = true -> has_steps g = true -> side_eqb (closed f) (closed g) = false ->
+    corr_signed_square f g lo hi 0 lc = Err EClosedMismatch.
+Proof. exact corr_rejects_opposite_sides. Qed.
+Print Assumptions corr_of_opposite_sides_is_rejected.
